@@ -162,7 +162,10 @@ def run(ctx):
                         'cell changes']
     n = ctx.n(20, 300)
     for k in range(n):
-        sc = pipeline.gen_scenario(rng, max_levels=4, max_leaves=8, n_cells=rng.randrange(3, 9))
+        # every fifth scenario has 23-40 cells: with chunks of 3, 7 or 9 rows the chunk boundaries (0, 9, 18, 27 ...)
+        # do not sort numerically as strings, and there are more chunks than workers
+        many = (k % 5 == 4)
+        sc = pipeline.gen_scenario(rng, max_levels=4, max_leaves=8, n_cells=rng.randrange(23, 41) if many else rng.randrange(3, 9))
         var = paired.base_var(rng, sc, factor=1.0)
         # a third of the scenarios map with a level dropped or flattened: the inferred (back-filled) levels of a cell
         # must not depend on its company either
@@ -226,8 +229,9 @@ def run(ctx):
         one = flat_cell if flat_cell is not None else rng.randrange(ncell)
         variants.append(('single-cell', [sc.cell_ids[one]], sc.query[[one]], dict(var)))
         v2 = dict(var)
-        v2['chunk_size'] = rng.randrange(1, ncell + 3)
-        v2['n_processors'] = rng.randrange(1, 5)
+        v2['chunk_size'] = rng.choice([3, 7, 9]) if many else rng.randrange(1, ncell + 3)
+        v2['n_processors'] = rng.choice([1, 4, 8]) if many else rng.randrange(1, 5)
+        ctx.dist('chunking_variant', f"{ncell} cells in chunks of {v2['chunk_size']}" if many else 'few cells')
         variants.append(('chunking', list(sc.cell_ids), sc.query, v2))
         for name, ids, q, vv in variants:
             r = paired.run_once(ctx, sc, f'v{k}_{name}', query=q, cell_ids=ids, normalization=norm,
